@@ -15,6 +15,15 @@
 (*   [k |-> "ind",  s: <<..>>, r]                independent(s)            *)
 (*   [k |-> "walk", i, e, topo, rev, since, until, max, r, base]           *)
 (*                                               list(get_walker(...))     *)
+(* and the porcelain wrappers that answer the same questions (branches are *)
+(* refs/heads/c<n> at commit n, HEAD a symbolic ref to one of them):        *)
+(*   [k |-> "pm", h, s: <<branches>>, r, nr]     merged_branches /          *)
+(*                                               no_merged_branches, HEAD=h *)
+(*   [k |-> "pc", a, s: <<branches>>, r]         branches_containing(a)     *)
+(*   [k |-> "pa", a, b, r: <<0|1>>]              porcelain.is_ancestor      *)
+(*   [k |-> "pb", s, oct, all, r]                porcelain.merge_base       *)
+(*   [k |-> "pi", s, r]                          independent_commits        *)
+(*   [k |-> "pr", i, r]                          porcelain.rev_list         *)
 (* plus  m: 1 = also run the transcribed algorithm of Graph.tla part 2/3   *)
 (*          and say whether it predicts r exactly,                         *)
 (*       g: <<>> or <<answer of C git>> (set as sequence / 0|1).           *)
@@ -88,6 +97,52 @@ Judge(par, ts, rank, A, q) ==
                   ELSE IF R \subseteq E THEN "dropped-independent" ELSE "wrong",
                   Clock(par, ts, Reach(A, S)),
                   IF q.m = 1 THEN (IF mo = q.r THEN 1 ELSE 0) ELSE 2 >>
+      [] q.k = "pm" ->
+           LET S  == SeqSet(q.s)
+               E  == {c \in S : IsAncestor(A, c, q.h)}
+               R  == SeqSet(q.r)
+               NR == SeqSet(q.nr)
+           IN  << IF R = E /\ NR = S \ E THEN "ok" ELSE "BranchMergedExact",
+                  IF ~ (R \subseteq E) \/ ~ ((S \ E) \subseteq NR) THEN "merged-but-not-an-ancestor"
+                  ELSE IF R = E /\ NR = S \ E THEN "same" ELSE "ancestor-reported-not-merged",
+                  Clock(par, ts, Reach(A, S \cup {q.h})), 2 >>
+      [] q.k = "pc" ->
+           LET S == SeqSet(q.s)
+               E == {c \in S : IsAncestor(A, q.a, c)}
+               R == SeqSet(q.r)
+           IN  << IF R = E THEN "ok" ELSE "BranchContainsExact",
+                  IF R = E THEN "same" ELSE IF E \subseteq R THEN "extra" ELSE IF R \subseteq E THEN "missing" ELSE "wrong",
+                  Clock(par, ts, Reach(A, S \cup {q.a})), 2 >>
+      [] q.k = "pa" ->
+           LET e == IsAncestor(A, q.a, q.b)
+               r == q.r[1] = 1
+           IN  << IF r = e /\ q.r[1] \in {0, 1} THEN "ok" ELSE "IsAncestorExact",
+                  IF q.r[1] \notin {0, 1} THEN "exception"
+                  ELSE IF r = e THEN "same" ELSE IF e THEN "false-negative" ELSE "false-positive",
+                  Clock(par, ts, Reach(A, {q.a, q.b})), 2 >>
+      [] q.k = "pb" ->
+           LET S == SeqSet(q.s)
+               E == IF q.oct = 1 THEN OctopusBases(A, S) ELSE MergeBases(A, q.s[1], SeqSet(Tail(q.s)))
+               R == SeqSet(q.r)
+               CA == IF q.oct = 1 THEN CommonAncAll(A, S) ELSE CommonAnc(A, q.s[1], SeqSet(Tail(q.s)))
+           IN  << IF q.all = 1 THEN (IF R = E THEN "ok" ELSE "PorcelainMergeBaseExact")
+                  ELSE IF (E = {} /\ q.r = <<>>) \/ (Len(q.r) = 1 /\ q.r[1] \in E) THEN "ok" ELSE "PorcelainMergeBaseExact",
+                  IF q.all = 1 THEN Diff(R, E, CA) ELSE "first-of-list",
+                  Clock(par, ts, Reach(A, S)), 2 >>
+      [] q.k = "pi" ->
+           LET S == SeqSet(q.s)
+               E == Independent(A, S)
+               R == SeqSet(q.r)
+           IN  << IF R = E /\ NoDup(q.r) THEN "ok" ELSE "PorcelainIndependentExact",
+                  IF R = E THEN "same" ELSE IF E \subseteq R THEN "kept-ancestor"
+                  ELSE IF R \subseteq E THEN "dropped-independent" ELSE "wrong",
+                  Clock(par, ts, Reach(A, S)), 2 >>
+      [] q.k = "pr" ->
+           LET I == SeqSet(q.i)
+               R == SeqSet(q.r)
+           IN  << IF NoDup(q.r) /\ R = Reach(A, I) THEN "ok" ELSE "RevListComplete",
+                  IF R = Reach(A, I) THEN "same" ELSE IF R \subseteq Reach(A, I) THEN "missing" ELSE "extra",
+                  Clock(par, ts, Reach(A, I)), 2 >>
       [] q.k = "walk" ->
            LET I     == SeqSet(q.i)
                E     == SeqSet(q.e)
